@@ -54,12 +54,42 @@ def err_class(ex: BaseException) -> str:
     return "E:other:" + type(ex).__name__
 
 
+class _Handle:
+    """what one `sqlite_conn(path)` call of pynenc gets: a view on the cached connection that knows whether it was
+    requested while another user of the same file was inside its `with` block (= a SECOND connection in reality)"""
+    WRITE = ("INSERT", "UPDATE", "DELETE", "REPLACE", "CREATE", "DROP", "ALTER", "BEGIN IMMEDIATE", "BEGIN EXCLUSIVE")
+
+    def __init__(self, cache, path, conn, nested_in_open_tx):
+        self._cache, self._path, self._c, self._nested_tx = cache, path, conn, nested_in_open_tx
+
+    def execute(self, sql, parameters=(), /):
+        if self._nested_tx and sql.lstrip().upper().startswith(self.WRITE):
+            self._cache.events.append(" ".join(sql.split())[:120])
+        return self._c.execute(sql, parameters)
+
+    def __enter__(self):
+        self._cache.depth[self._path] = self._cache.depth.get(self._path, 0) + 1
+        self._c.__enter__()
+        return self
+
+    def __exit__(self, exc_type, exc_val, exc_tb):
+        self._cache.depth[self._path] -= 1
+        return self._c.__exit__(exc_type, exc_val, exc_tb)
+
+    def __getattr__(self, name):
+        return getattr(self._c, name)
+
+
 class ConnCache:
     """Harness-side shim for pynenc.util.sqlite_utils.create_sqlite_connection as imported by the SQLite
     component modules: one connection per (thread, db path) instead of one per call.  The SQL text, the
     PRAGMAs, BEGIN IMMEDIATE / commit / rollback-on-exception behaviour are pynenc's own (the real factory
     builds the connection; pynenc never closes its connections either).  Only the ~3 ms connect+PRAGMA cost
-    per call is saved, which is what makes a full read-out after every operation affordable."""
+    per call is saved, which is what makes a full read-out after every operation affordable.
+    What sharing one connection would hide is detected instead: a connection requested while another user of
+    the same file is inside its `with` block AND that outer user has an open write transaction, followed by a
+    write through the inner one.  On real separate connections the inner write blocks on the outer lock until
+    the 30 s busy timeout and fails with 'database is locked'; here it is recorded in `events` (no waiting)."""
     MODULES = ("pynenc.orchestrator.sqlite_orchestrator", "pynenc.broker.sqlite_broker",
                "pynenc.state_backend.sqlite_state_backend", "pynenc.trigger.sqlite_trigger",
                "pynenc.client_data_store.sqlite_client_data_store")
@@ -69,6 +99,8 @@ class ConnCache:
         self.local = threading.local()
         self.saved = []
         self.main = threading.get_ident()
+        self.depth: dict = {}          # main thread only: users currently inside `with` per db file
+        self.events: list = []         # nested writes inside somebody else's open write transaction
 
     def get(self, path):
         import threading
@@ -76,10 +108,16 @@ class ConnCache:
         if threading.get_ident() != self.main:          # history writer threads: pynenc's own behaviour
             return sqlite_utils.create_sqlite_connection(path)
         d = self.local.__dict__.setdefault("conns", {})
-        c = d.get(str(path))
+        key = str(path)
+        c = d.get(key)
         if c is None:
-            c = d[str(path)] = sqlite_utils.create_sqlite_connection(path)
-        return c
+            c = d[key] = sqlite_utils.create_sqlite_connection(path)
+        nested_tx = self.depth.get(key, 0) > 0 and bool(c.in_transaction)
+        return _Handle(self, key, c, nested_tx)
+
+    def pop_events(self):
+        ev, self.events = self.events, []
+        return ev
 
     def install(self):
         import importlib
@@ -101,6 +139,7 @@ class ConnCache:
             except Exception:  # noqa: BLE001
                 pass
         self.local.__dict__["conns"] = {}
+        self.depth = {}
 
     def uninstall(self):
         self.drop()
